@@ -103,6 +103,11 @@ Lemma irp_try {A} (Q : A -> Prop) (c : W A) : irpq Q c -> irp (wtry c).
 Proof.
   intros Hc w r w' S E. apply wtry_inv in E as (r0 & E & _). destruct (Hc _ _ _ S E) as (S1 & Sm & _). auto.
 Qed.
+Lemma irpq_try {A} (Q : A -> Prop) (c : W A) : irpq Q c -> irpq (fun o => forall a, o = Some a -> Q a) (wtry c).
+Proof.
+  intros Hc w r w' S E. apply wtry_inv in E as (r0 & E & ->). destruct (Hc _ _ _ S E) as (S1 & Sm & Hq).
+  split; auto. split; auto. intros o [= <-] a Ha. destruct r0; [injection Ha as <-; auto | discriminate].
+Qed.
 Lemma irp_catch {A} (Q : A -> Prop) (c : W A) : irpq Q c -> irp (wcatch c).
 Proof.
   intros Hc w r w' S E. apply wcatch_inv in E as (r0 & E & _). destruct (Hc _ _ _ S E) as (S1 & Sm & _). auto.
@@ -228,6 +233,10 @@ Lemma OutC_cons_data d l : OutC (CData d :: l) -> OutC l.
 Proof. intros H x Hx. apply H. right. exact Hx. Qed.
 Lemma OutI_cons c l : OutI (c :: l) -> ~ P c /\ OutI l.
 Proof. intros H. split; [apply H; left; reflexivity | intros x Hx; apply H; right; exact Hx]. Qed.
+Lemma OutI_nil : OutI [].
+Proof. intros c []. Qed.
+Lemma OutI_cons_intro c l : ~ P c -> OutI l -> OutI (c :: l).
+Proof. intros Hc Hl x [<-|Hx]; auto. Qed.
 Lemma OutP_cons {K} (k : K) c l : OutP ((k, c) :: l) -> ~ P c /\ OutP l.
 Proof. intros H. split; [apply (H k); left; reflexivity | intros k' x Hx; apply (H k'); right; exact Hx]. Qed.
 Lemma GoodN_OutC n : GoodN n -> OutC (n_content n).
